@@ -198,6 +198,16 @@ func init() {
 		"time.now":   extTimeNowRaw,
 		"time.Sleep": func(fr *frame, a []value) (value, bool) { fr.i.yield(); return nil, true },
 		"time.runtimeNano": func(fr *frame, a []value) (value, bool) { return int64(0), true },
+		// timers: the clock is nondeterministic, so a timer may fire at any
+		// scheduling point: its channel is ready from the start (a select that
+		// also has another ready case becomes a finite choice of the path)
+		"time.NewTimer": func(fr *frame, a []value) (value, bool) {
+			var v value = structure{extTimerChan(fr), false}
+			return &v, true
+		},
+		"time.After": func(fr *frame, a []value) (value, bool) { return extTimerChan(fr), true },
+		"(*time.Timer).Stop":  func(fr *frame, a []value) (value, bool) { return false, true },
+		"(*time.Timer).Reset": func(fr *frame, a []value) (value, bool) { return false, true },
 	} {
 		if v != nil {
 			externals[k] = v
@@ -533,6 +543,16 @@ func extBuilderString(fr *frame, args []value) (value, bool) {
 }
 
 // ---- time
+
+func extTimerChan(fr *frame) *gchan {
+	c := fr.i.makeChan(1)
+	var tv value
+	if p := fr.i.prog.ImportedPackage("time"); p != nil {
+		tv = zero(p.Type("Time").Type())
+	}
+	c.buf = append(c.buf, tv)
+	return c
+}
 
 func extTimeNow(fr *frame, args []value) (value, bool) {
 	panic(pathAbort{abExternal, "clock read (time.Now)"})
